@@ -253,6 +253,19 @@ fn main() {
       let env = h::router::envelope_roundtrip();
       h::util::write_json(&args[3], &json!({"runs": beh.len(), "with_issues": outs.len(), "envelope_issues": env, "outcomes": outs.into_iter().take(100).collect::<Vec<_>>()}));
     }
+    "ingress" => {
+      // vh ingress <behaviours.jsonl> <out.json> [--perturb]
+      let beh: Vec<h::ingress::Behaviour> = h::util::read_jsonl(&args[2]);
+      let perturb = args.iter().any(|a| a == "--perturb");
+      let mut outs = Vec::new();
+      for (i, b) in beh.iter().enumerate() {
+        let o = h::ingress::run(i, b, perturb);
+        if !o.issues.is_empty() {
+          outs.push(serde_json::to_value(&o).unwrap());
+        }
+      }
+      h::util::write_json(&args[3], &json!({"runs": beh.len(), "with_issues": outs.len(), "outcomes": outs.into_iter().take(100).collect::<Vec<_>>()}));
+    }
     other => h::util::tool_error(&format!("unknown subcommand {}", other)),
   }
 }
